@@ -204,7 +204,17 @@ func (wk *c14worker) run(seq []c14sym, withWatch bool) {
 			lw.expect = append(lw.expect, expOf(m))
 		}
 	}
+	var lastWriteReal time.Time
 	for pos, sy := range seq {
+		// expiry buckets: the model's clock only moves at WaitExpiry; if this process was
+		// descheduled for a sizeable part of MaxAge since the key's last write, the real
+		// record may have expired on its own -> inconclusive, never an alarm
+		if wk.ttl > 0 && sy.kind != "wait" && !lastWriteReal.IsZero() && time.Since(lastWriteReal) > wk.ttl/3 {
+			x.mu.Lock()
+			x.expirySlow++
+			x.mu.Unlock()
+			return
+		}
 		if withWatch {
 			open(pos)
 		}
@@ -222,6 +232,9 @@ func (wk *c14worker) run(seq []c14sym, withWatch bool) {
 		x.states[fmt.Sprintf("%s|pos%d", st, pos)] = true
 		x.mu.Unlock()
 		step := fmt.Sprintf("step %d %s", pos+1, sy.name)
+		if sy.kind != "get" && sy.kind != "wait" && lastWriteReal.IsZero() {
+			lastWriteReal = time.Now() // the oldest write that may still be unexpired
+		}
 		switch sy.kind {
 		case "create":
 			rev, err := wk.kv.Create(key, sy.val)
@@ -279,6 +292,7 @@ func (wk *c14worker) run(seq []c14sym, withWatch bool) {
 		case "wait":
 			time.Sleep(wk.ttl + 120*time.Millisecond)
 			wk.now += wk.ttl
+			lastWriteReal = time.Time{}
 			// make sure the server has really expired the message before going on
 			if cur != nil {
 				deadline := time.Now().Add(3 * time.Second)
